@@ -51,6 +51,17 @@ CHECKS["C12"] = dict(
     design_ref="DESIGN.md 6 C12",
     note="The solver's role is evaluation of ground modular identities (stated honestly in DESIGN); the specification side (curve constants from their definitions, multiples of B by the affine addition law) is ~60 lines of Python in llsym/fconst.py, cross-checked against the RFC 9496 decimals. ff/group constants are checked under C17 when claimed.",
     technique="constants read from the LLVM IR of every configuration (llsym concrete mode), ground SMT identities (z3)")
+P_NOTE = "Trusted: SHA-512 / the digest is a function (M5) - replaced by a model digest or model transcript hash; the group and scalar operations are replaced by deterministic bit-mixing model functions shared by the implementation under test (Kani stubs) and the RFC-shaped reference, so the claim is about which values flow where and which tests gate acceptance, for all key/signature bits; the arithmetic meaning of the stubbed calls is C02/C03/C04. Bounds: message/context lengths as listed in evidence (symbolic lengths; longer inputs take the same code path through slice-opaque hashing), Kani unwinding assertions on."
+CHECKS["C08"] = dict(engine="kani",
+    category="model_checking",
+    text="Kani/CBMC model-checks the real signing glue (ExpandedSecretKey::from_bytes, hazmat::raw_sign, raw_sign_prehashed) for all 2^512 expanded-key bits and all verifying keys against an RFC 8032 5.1.5/5.1.6-shaped reference (prefix/scalar split and clamping, r = H([dom2]||prefix||M), R = rB, k = H([dom2]||R||A||M), S = k*a + r, signature = R||S), and the context-length limit for every length 0..300.",
+    design_ref="DESIGN.md 6 C08", note=P_NOTE + " Not covered: SigningKey::from_bytes / from_keypair_bytes (they hash the seed with real SHA-512 inside the harness, which CBMC does not finish), 'every signature so produced verifies' follows from C09's acceptance set for a signature of this form.",
+    technique="Kani/CBMC bounded model checking of the real Rust code with model functions (stubs) vs RFC 8032 reference")
+CHECKS["C09"] = dict(engine="kani",
+    category="model_checking",
+    text="Kani/CBMC model-checks every verification entry point (hazmat raw_verify / raw_verify_prehashed with a model digest; verify, verify_strict, verify_prehashed, verify_prehashed_strict with the SHA-512 transcript helper replaced by the same model transcript hash) for ALL 2^256 keys and 2^512 signatures against the RFC 8032 5.1.7 acceptance procedure: S canonical, A decodes, bytewise comparison of Encode([S]B - [k]A) with R, dom2 for prehash, and for strict: R decodes and neither R nor A has small order - in that order; plus the legacy_compatibility build where only the S range check becomes the top-three-bits test.",
+    design_ref="DESIGN.md 6 C09", note=P_NOTE,
+    technique="Kani/CBMC bounded model checking of the real Rust code with model functions (stubs) vs RFC 8032 reference")
 NOT_YET = {}
 for i in range(2, 18):
     NOT_YET["C%02d" % i] = "check under construction in this round (see DESIGN.md 6 for the planned solver-based check); not claimed until it runs green"
